@@ -37,6 +37,7 @@ PROP = {
  'MT readers could hand out units that follow a failed unit': ('C09', 'coordinator looked at in-order results before the error store: data from the wrong position, then the error'),
  'MT readers returned data again after they had reported an error': ('C09', 'error not sticky: a read() after the error returned reorder-buffer contents from behind the failed unit (found when calls-after-error were added to mt.fault/mt.drop/mt.corrupt)'),
  'finish() of the MT writers blocked forever': ('C09', 'finish() after a worker error already reported by write()/flush() reset the state to Finishing and waited in recv() forever (found when calls after an error and worker-rejected options were added to mt.fault)'),
+ 'XZReader accepted stream padding that is not a multiple of four at the end': ('C04', 'multi-stream file truncated inside the stream padding behind a stream (e.g. 11 zero bytes, then EOF) was read as complete: success with the later streams missing; also C12 (malformed padding). Found by corrupt.random truncations over multi-stream files; concat.xz now places malformed padding behind the last stream as well'),
  'encoder memory estimate added the window size in bytes': ('C17', 'LZEncoder::get_memory_usage added bytes to KiB: 330716 KiB reported for a 0.9 MiB encoder'),
  'encoder memory estimate left out the three-byte hash table': ('C17', 'Hash234::get_mem_usage summed HASH2_MASK + HASH2_SIZE instead of HASH2_SIZE + HASH3_SIZE: estimate below the real peak for small dictionaries'),
  'out-of-range encoder options': ('C19', 'lc+lp>4, lp=5, pb=5, nice_len outside 8..=273, dict 0, delta distance 0, unaligned BCJ offsets, preset dictionary with XZ/LZIP: undecodable streams or panics'),
